@@ -180,3 +180,21 @@ def _unconvert_accepts_attr_model(it, a, kw):
 list_kind._pyvc_model = _list_kind_model
 is_leaf_for._pyvc_model = _is_leaf_for_model
 unconvert_accepts_attr._pyvc_model = _unconvert_accepts_attr_model
+
+
+def all_converted(appended, attr):
+    raise RuntimeError("symbolic only")
+
+
+def _all_converted_model(it, a, kw):
+    """every appended value is an application of the list converter (the uninterpreted list_conv of the harness)"""
+    import z3
+    ok = True
+    for v in a[0]:
+        e = getattr(v, "e", None)
+        ok = ok and e is not None and z3.is_app(e) and e.decl().name() == "list_conv"
+    return ok
+
+
+all_converted._pyvc_model = _all_converted_model
+all_converted._pyvc_always = True
